@@ -105,6 +105,7 @@ VERDICT = {
     'C13': 'DECIDED at collector + hook + verdict + directory walk',
     'C14': 'DECIDED at hook level',
     'C15': 'PARTIAL: format value -> Val mappers, include hook',
+    'C16': 'PARTIAL, function level: cache coherence (op cache, value cache, shape cache, out locks)',
     'C18': 'PARTIAL: env tuple, selector miss diagnostics, dispatch',
     'C20': 'PARTIAL, narrow: position kernel',
 }
